@@ -37,7 +37,12 @@ def setup():
             for c in cs:
                 s = m2_query.run_model(c)
                 print("tlc  %-22s generated=%d distinct=%d cached=%s %.1fs" % (c["name"], s["generated"], s["distinct"], s["cached"], s["wall_s"]))
-    from . import m4_render, m5_export
+    from . import m4_render, m5_export, m6_attrs, m6_clone
+
+    for mod in (m6_attrs, m6_clone):
+        for c in mod.CONFIGS["quick"]:
+            s = mod.run_model(c)
+            print("tlc  %-22s generated=%d distinct=%d cached=%s %.1fs" % (c["name"], s["generated"], s["distinct"], s["cached"], s["wall_s"]))
 
     for c in m4_render.CONFIGS["quick"]:
         s = m4_render.run_model(c)
